@@ -9,4 +9,6 @@ def check(ctx, rep):
     rxr.rx_5d(ctx, rep)
     from ..rules import eff as _eff6
     _eff6.eff_6(ctx, rep)        # no memo hands one mutable result to several callers
+    # 'the same line count as the positions in the tree': the position code of the tree counts \n and \r alike
+    rxr.rx_10(ctx, rep, ['parso/tree.py', 'parso/python/tree.py', 'parso/utils.py'])
     rep.note('Not decided: codec behaviour.')
